@@ -18,7 +18,9 @@ RULE = (
     "field type in scalar and T[] form, nested record/record[] to depth 2, grouped records) written by the real writer "
     "and read back; enumerated part: every cell of the matrix field type x value class (none/empty/boundary/extreme/"
     "random/hostile) is forced into the first record of at least one sequence per access path family; the rest are "
-    "random mixes.  A case is non-trivial when at least one record was written and read back; distinct = distinct "
+    "random mixes; 'rewrite' cases hand the SAME record objects to the writer three times, each record being updated in place "
+    "between the writes through the mutable values it holds (typed-list methods, digest / command attributes, fields of nested "
+    "records) - every write must emit the state at that moment.  A case is non-trivial when at least one record was written and read back; distinct = distinct "
     "(recipe kind, focus cell, access path, sub-seed).  Oracle: canonical deep observation (class names, float bits, "
     "code points, wall clock + utcoffset, flavour, address family, list order; typed-list/digest None == empty default) "
     "of what was written, taken before writing, equals that of what was read; Record.__eq__ is never used."
@@ -75,6 +77,10 @@ def generate(ctx):
         yield {"k": "coincident", "via": VIAS[i % len(VIAS)], "s": subseed("c01", ctx.seed, "co", ctx.shard, i)}
     if ctx.shard < len(VIAS):
         yield {"k": "bigframe", "via": VIAS[ctx.shard], "s": subseed("c01", ctx.seed, "big", ctx.shard)}
+    # the same record objects are written again after being updated in place (list methods, digest / command attributes,
+    # fields of nested records): every write must emit the record's state at that moment
+    for i in range(ctx.scale(40, 400)):
+        yield {"k": "rewrite", "via": VIAS[i % len(VIAS)], "s": subseed("c01", ctx.seed, "rewrite", ctx.shard, i)}
     # unrelated configuration must not leak into the stream: comparison ignore-lists active while writing / reading
     for i in range(ctx.scale(24, 200)):
         yield {"k": "cfg", "via": VIAS[i % len(VIAS)], "ignore": [["_generated"], ["_source", "_version"], ["<first>"], ["<all>"]][i % 4],
@@ -137,6 +143,85 @@ def big_frame_records(seed):
     return out
 
 
+def mutate_in_place(b, rng, rec, depth=0):
+    """Update a record WITHOUT assigning to its own fields: through the mutable values it holds.  -> number of updates."""
+    import flow.record.base as base
+    import flow.record.fieldtypes as ft
+
+    if isinstance(rec, base.GroupedRecord):
+        return sum(mutate_in_place(b, rng, m, depth + 1) for m in rec.records)
+    n = 0
+    for ftype, fname in rec._desc.get_field_tuples():
+        v = getattr(rec, fname)
+        if isinstance(v, ft.typedlist):
+            ops = ["append-copy", "reverse", "pop", "clear", "double", "swap", "append-new"] if len(v) else ["append-new"]
+            op = rng.choice(ops)
+            et = type(v).__type__
+            if op == "append-copy":
+                v.append(v[rng.randrange(len(v))])
+            elif op == "reverse":
+                if len(v) < 2 or observe.oval(v[0]) == observe.oval(v[-1]):
+                    v.append(v[0])
+                    v.append(v[0])
+                else:
+                    v.reverse()
+            elif op == "pop":
+                v.pop(rng.randrange(len(v)))
+            elif op == "clear":
+                del v[:]
+            elif op == "double":
+                v.extend(list(v))
+            elif op == "swap":
+                v[0:1] = [v[-1], v[0]]
+            else:
+                base_t = ftype[:-2]
+                if base_t == "record":
+                    v.append(b.record(b.descriptor(depth=2, nfields=2, allow_keyword=False), depth=2))
+                else:
+                    v.append(et(b.value(base_t, "random", depth + 1)))
+            n += 1
+            for x in v:
+                if isinstance(x, (base.Record, base.GroupedRecord)) and rng.random() < 0.5:
+                    n += mutate_in_place(b, rng, x, depth + 1)
+        elif isinstance(v, ft.digest):
+            which = rng.choice(["md5", "sha1", "sha256"])
+            setattr(v, which, "%0*x" % ({"md5": 32, "sha1": 40, "sha256": 64}[which], rng.getrandbits(120)))
+            n += 1
+        elif isinstance(v, ft.command) and v.args is not None:
+            if rng.random() < 0.5:
+                v.args.append("extra%d" % rng.randrange(100))
+            else:
+                v.executable = v._path_type("renamed%d" % rng.randrange(100))
+            n += 1
+        elif isinstance(v, (base.Record, base.GroupedRecord)):
+            if isinstance(v, base.Record) and v._desc.get_field_tuples() and rng.random() < 0.6:
+                t2, n2 = rng.choice(v._desc.get_field_tuples())
+                if not t2.startswith("record"):
+                    setattr(v, n2, b.value(t2, rng.choice([c for c in gen.classes_for(t2) if c != "extreme"]), depth + 1))
+                    n += 1
+            n += mutate_in_place(b, rng, v, depth + 1)
+    return n
+
+
+def rewriting(ctx, records, seed, snaps):
+    """Generator handed to the writer loop: all records, then twice (update every record in place, all records again).
+    The observation of each record is taken at the moment it is handed to the writer."""
+    import random
+
+    rng = random.Random(seed ^ 0xA11CE)
+    b = gen.Builder(rng, thorough=False, max_depth=2)
+    for r in records:
+        snaps.append(observe.obs(r))
+        yield r
+    for _ in range(2):
+        for r in records:
+            ctx.event("in_place_updates_between_writes", mutate_in_place(b, rng, r))
+        for r in records:
+            snaps.append(observe.obs(r))
+            ctx.event("records_written_again")
+            yield r
+
+
 def compare(ctx, before, after, what):
     """Compare lists of observations; classify every value difference.  -> number of unclassified differences."""
     if len(before) != len(after):
@@ -196,8 +281,12 @@ def execute(ctx, case):
         restore = set(base.IGNORE_FIELDS_FOR_COMPARISON)
         base.set_ignored_fields_for_comparison(names)
         ctx.event("cases_with_comparison_ignore_list_active")
+    to_write = records
+    if case["k"] == "rewrite":
+        before = []
+        to_write = rewriting(ctx, records, case["s"], before)
     try:
-        got = roundtrip(ctx, records, via)
+        got = roundtrip(ctx, to_write, via)
     except Exception as e:  # noqa: BLE001 - a valid sequence must be writable and readable
         ctx.violation(None, "round trip via %s raised %s" % (via, type(e).__name__),
                       detail={"exception": repr(e)[:400], "records": workload.describe(records), "ignore": case.get("ignore")})
@@ -206,7 +295,10 @@ def execute(ctx, case):
         if restore is not None:
             base.set_ignored_fields_for_comparison(restore)
     after_write = [observe.obs(r) for r in records]
-    if after_write != before:
+    if case["k"] == "rewrite":
+        if before[-len(records):] != after_write:
+            ctx.violation(None, "writing mutated the record", detail={"diff": observe.first_diff(before[-len(records):], after_write)})
+    elif after_write != before:
         ctx.violation(None, "writing mutated the record", detail={"diff": observe.first_diff(before, after_write)})
     try:
         for r in got:
